@@ -7,6 +7,13 @@
 //   cb=plain | cb=kernel                          PlainDistance / KernelDistance wrapper of tapkee
 //   kern=lin (with pts) | kern=matrix km=...      integer kernel values; the induced squared distances are perfect
 //                                                squares by construction of the generator, so sqrt is exact
+//   rng=i0,i1,...                                 (optional) the iterator range handed to tapkee is data[p] = i_p (N distinct
+//                                                non-negative ints) instead of the identity 0..N-1: element != position.
+//                                                The user callbacks translate element -> sample through the inverse
+//                                                table; an argument that is not an element of the range (e.g. a loop
+//                                                POSITION passed where *iter was meant) counts as `foreign` and yields a
+//                                                huge value.  Neighbour lists are positions as always.  (The field is not
+//                                                called ids=: that name is taken by the implementation's lists.)
 //   vs=n0,n1,...                                  vantage stream: the j-th call of tapkee::uniform_random() returns
 //                                                n_(j mod len) * 2^-20
 // All values are small integers / dyadics, so IEEE arithmetic performs no rounding (exact mode, DESIGN §3).
@@ -15,6 +22,7 @@
 #include <cmath>
 #include <cstdint>
 #include <string>
+#include <unordered_map>
 #include <vector>
 
 namespace vk
@@ -72,6 +80,29 @@ struct Space
     std::string kern;                    // lin | matrix
     std::vector<std::vector<double>> KM;  // kernel matrix
     mutable long ndist = 0, nkern = 0, nself = 0; // nself: evaluations d(x, x) (every search makes N of them per round)
+    std::vector<int> ids;                 // the range handed to tapkee (empty: identity)
+    std::unordered_map<int, int> inv;     // element -> sample
+    mutable long foreign = 0;             // callback arguments that are not elements of the range
+
+    // element (what a dereferenced iterator yields) -> sample index, -1 if it is not an element of the range
+    int sample(int e) const
+    {
+        if (ids.empty())
+            return (e >= 0 && e < N) ? e : -1;
+        auto it = inv.find(e);
+        return it == inv.end() ? -1 : it->second;
+    }
+    std::vector<int> range() const
+    {
+        std::vector<int> data(N);
+        for (int i = 0; i < N; i++)
+            data[i] = ids.empty() ? i : ids[i];
+        return data;
+    }
+    std::string foreign_suffix() const
+    {
+        return foreign > 0 ? " foreign=" + std::to_string(foreign) : "";
+    }
 
     double dist(int a, int b) const
     {
@@ -153,6 +184,15 @@ inline Space parse_space(std::map<std::string, std::string>& f)
     stream().draws = 0;
     if (f.count("vs"))
         stream().v = vh::parse_ints(f["vs"]);
+    if (f.count("rng"))
+    {
+        for (long x : vh::parse_ints(f["rng"]))
+            s.ids.push_back((int)x);
+        if ((int)s.ids.size() != s.N)
+            s.ids.clear(); // malformed: fall back to the identity range
+        for (int i = 0; i < (int)s.ids.size(); i++)
+            s.inv[s.ids[i]] = i;
+    }
     return s;
 }
 
@@ -162,7 +202,13 @@ struct DistCb
     const Space* s;
     ScalarType distance(int a, int b) const
     {
-        return s->dist(a, b);
+        int x = s->sample(a), y = s->sample(b);
+        if (x < 0 || y < 0)
+        {
+            s->foreign++;
+            return 1e30;
+        }
+        return s->dist(x, y);
     }
 };
 struct KernCb
@@ -170,7 +216,13 @@ struct KernCb
     const Space* s;
     ScalarType kernel(int a, int b) const
     {
-        return s->kernel(a, b);
+        int x = s->sample(a), y = s->sample(b);
+        if (x < 0 || y < 0)
+        {
+            s->foreign++;
+            return a == b ? 1e30 : 0.0; // induced distance sqrt(k(a,a) + k(b,b) - 2 k(a,b)) stays real
+        }
+        return s->kernel(x, y);
     }
 };
 
